@@ -33,7 +33,7 @@ func (c15) Assumptions() []string {
 	return []string{"the library keeps attaching the pprof labels jrpc-mode/jrpc-uuid to server connection goroutines (handler goroutines inherit them); if the labels vanish the leak oracle reports inconclusive, not held", "8 s grace"}
 }
 
-var c15Causes = []string{"closer", "FIN", "RST", "srvcancel", "midFIN"}
+var c15Causes = []string{"closer", "FIN", "RST", "srvcancel", "midFIN", "midframe-srvcancel"}
 var c15Work = []string{"unary", "notif", "stream", "reverse", "all", "none", "stream-noclose"}
 
 func (c15) Plan(tier string, seed int64) []core.Scenario {
@@ -334,6 +334,18 @@ func c15run(sc core.Scenario, r *core.R) {
 	case "RST":
 		env.Px.KillAll(wsproxy.RST)
 	case "srvcancel":
+		env.CancelServerContexts()
+	case "midframe-srvcancel":
+		// half of a request frame has arrived (the rest never will) when the server side cancels the connection
+		fired := make(chan struct{})
+		env.Px.Arm(&wsproxy.Fault{Kind: wsproxy.BLACKHOLE, Dir: wsproxy.C2S, Pos: 2, Match: func(fi wsproxy.FrameInfo) bool { return fi.Opcode == 1 && fi.Len > 2000 }, OnFire: func() { close(fired) }})
+		mt := Tok("m")
+		go cl.Echo(bg, mt, strings.Repeat("p", 4096))
+		if !core.WaitCh(fired, core.Grace) {
+			r.Inconclusive("the mid-frame fault never fired")
+			return
+		}
+		time.Sleep(20 * time.Millisecond)
 		env.CancelServerContexts()
 	case "midFIN":
 		// the client's stream ends in the middle of a frame: header and half of the payload, then FIN
